@@ -112,6 +112,33 @@ def strip_usm(u):
     return {k: v for k, v in u.items() if not k.startswith("_")}
 
 
+def fresh_pdu_ok(R, case, pdu_obj, ref_pdu):
+    """x690 objects keep the octets they were decoded from, so bytes(obj) may simply
+    replay them; the DECODED CONTENT is what a caller (and every re-encoding that starts
+    from it) works with: its fields must be the ones on the wire, and a PDU object built
+    afresh from it must - where the library can encode it at all - carry the same
+    content."""
+    content = pdu_obj.value
+    got = {"request_id": content.request_id, "error_status": content.error_status, "error_index": content.error_index, "n": len(content.varbinds)}
+    want = {"request_id": ref_pdu["request_id"], "error_status": ref_pdu["error_status"], "error_index": ref_pdu["error_index"], "n": len(ref_pdu["varbinds"])}
+    if got != want:
+        R.violation(case, "decoded PDU content carries %r, on the wire %r" % (got, want), None)
+        return False
+    try:
+        re = bytes(type(pdu_obj)(content))
+        back = ber.dec_pdu(re, 0, len(re))
+    except Exception:  # noqa: BLE001
+        # e.g. exception markers: the client never has to encode a response
+        R.mon["rebuilt_pdu_not_encodable"] += 1
+        return True
+    if strip_pdu(back) != strip_pdu(ref_pdu):
+        only_big = all(big_first_subid(v) or big_first_subid(("oid", o)) for (o, v), (o2, v2) in zip(ref_pdu["varbinds"], back["varbinds"]) if (o, v) != (o2, v2)) and len(back["varbinds"]) == len(ref_pdu["varbinds"]) and {k: v for k, v in strip_pdu(back).items() if k != "varbinds"} == {k: v for k, v in strip_pdu(ref_pdu).items() if k != "varbinds"}
+        R.violation(case, "a PDU rebuilt from its decoded content carries %r, original %r" % (str(strip_pdu(back))[:160], str(strip_pdu(ref_pdu))[:160]), "x690-oid-first-subid-ge-120-decode" if only_big else None)
+        return False
+    R.mon["reencode_from_content_ok"] += 1
+    return True
+
+
 def reencode_checks(R, case, datagram):
     """bytes(decode(x)) carries the same content as x, for a v3 datagram."""
     try:
@@ -130,6 +157,8 @@ def reencode_checks(R, case, datagram):
             return
         if strip_pdu(back) != strip_pdu(ref["pdu"]):
             R.violation(case, "bytes(decoded PDU) carries %r, original %r" % (str(strip_pdu(back))[:200], str(strip_pdu(ref["pdu"]))[:200]), None)
+            return
+        if not fresh_pdu_ok(R, case, pdu_obj, ref["pdu"]):
             return
         R.mon["reencode_pdu_ok"] += 1
         return
@@ -179,6 +208,8 @@ def reencode_checks(R, case, datagram):
         R.mon["reencode_scoped_ok"] += 1
         if strip_pdu(back2) != strip_pdu(r["pdu"]):
             R.violation(case, "bytes(decoded PDU) differs in content", None)
+            return
+        if not fresh_pdu_ok(R, case, sp.data, r["pdu"]):
             return
         R.mon["reencode_pdu_ok"] += 1
 
